@@ -349,7 +349,7 @@ func c13Segments(o *c13Out, seed int64, tier string) {
 	go func() { wg.Wait(); close(done) }()
 	select {
 	case <-done:
-	case <-time.After(120 * time.Second):
+	case <-hangAfter(120 * time.Second):
 		o.crash("seg-hang", "concurrent segment games did not finish")
 		return
 	}
